@@ -58,6 +58,9 @@ pub enum Act {
     NotifyTask { to: u16 },
     /// change the panic stereotype of the module from inside a callback
     SetCatching { v: bool },
+    /// (C02) try to emit a message for an instant `back_ns` before the current one: mode 0 `send_at` on gate `gate`,
+    /// mode 1 `schedule_at`. The call must be rejected with a panic, which the handler catches itself.
+    SendPast { gate: u32, back_ns: u64, mode: u8 },
 }
 
 #[derive(Serialize, Deserialize, Clone, Debug, PartialEq, Eq, Hash)]
@@ -272,6 +275,8 @@ pub enum Ev {
     /// async task records (engine asy)
     Task { task: u16, step: u16, inc: u16, code: u32, val: u64 },
     Active { active: bool },
+    /// an attempt to emit a message for an instant before the current one
+    PastSend { uid: u32, mode: u8, back_ns: u64, accepted: bool },
 }
 
 #[derive(Clone, Debug, PartialEq, Eq, Hash, Serialize)]
@@ -453,6 +458,29 @@ impl ScriptMod {
             Act::Random => {
                 let v: u64 = random();
                 rec(self.idx, Ev::Rand { v });
+            }
+            Act::SendPast { gate, back_ns, mode } => {
+                let now = SimTime::now().as_nanos();
+                let back = u128::from((*back_ns).max(1));
+                if now < back {
+                    return true;
+                }
+                let past = SimTime::from_duration(Duration::from_nanos((now - back) as u64));
+                let uid = uid_of(self.idx, site, ai, self.inc);
+                let msg = crate::bodies::make_message(uid, 0).src(uid_to_src(uid));
+                let r = if *mode % 2 == 0 {
+                    let Some((g, _)) = self.gate_ref(*gate) else { return true };
+                    if g.kind() == GateKind::Transit {
+                        return true;
+                    }
+                    std::panic::catch_unwind(std::panic::AssertUnwindSafe(move || send_at(msg, g, past)))
+                } else {
+                    std::panic::catch_unwind(std::panic::AssertUnwindSafe(move || schedule_at(msg, past)))
+                };
+                if r.is_err() {
+                    crate::clear_panic();
+                }
+                rec(self.idx, Ev::PastSend { uid, mode: *mode % 2, back_ns: *back_ns, accepted: r.is_ok() });
             }
             Act::Shutdown { restart, at } => {
                 // scripts restart at most MAX_CYCLES times, otherwise a restarting script would never end
